@@ -70,10 +70,10 @@ func (e *Eng) actAuthorize() {
 		q.Set("audience", strings.Join(aud, " "))
 	}
 	subject := fmt.Sprintf("user-%d", len(e.grants)+1)
-	sess := h.NewSess(subject)
-	if rapid.IntRange(0, 3).Draw(t, "collidingExtraClaims") == 0 {
+	var sess fosite.Session = e.w.Sess(subject)
+	if hs, ok := sess.(*h.Sess); ok && rapid.IntRange(0, 3).Draw(t, "collidingExtraClaims") == 0 {
 		// custom session claims named like the fields the server reports itself must not override them
-		sess.Extra = map[string]interface{}{"active": false, "client_id": "evil-client", "sub": "evil-subject", "scope": "admin", "aud": []string{"https://evil.example"}, "exp": 1, "iat": 1, "username": "evil", "custom": "kept"}
+		hs.Extra = map[string]interface{}{"active": false, "client_id": "evil-client", "sub": "evil-subject", "scope": "admin", "aud": []string{"https://evil.example"}, "exp": 1, "iat": 1, "username": "evil", "custom": "kept"}
 		e.label("session-extra-claims-collide")
 	}
 	res := e.w.Authorize(q, h.Consent{Session: sess, Scopes: append([]string{}, granted...)})
@@ -463,6 +463,15 @@ func (e *Eng) actRefresh() {
 	}
 	r.Fails++
 	e.label("refresh-refused:" + strings.Join(reasons, "+"))
+	if len(reasons) == 2 && has("used") && has("expired") {
+		// an already-used refresh token stays an already-used refresh token after its own expiry: presenting it
+		// is a replay and kills the family (the newest tokens may well be alive)
+		e.label("refresh-replay")
+		e.label("refresh-replay-of-expired-token")
+		e.killFamily(g, "C04/reuse-did-not-kill-family")
+		e.invariant("C04/reuse-affected-other-grant", g)
+		return
+	}
 	if len(reasons) == 1 {
 		switch reasons[0] {
 		case "used":
@@ -616,7 +625,7 @@ func (e *Eng) actPassword() {
 	if len(scopes) > 0 {
 		form.Set("scope", strings.Join(scopes, " "))
 	}
-	tr := e.w.Token(form, e.auth(client), h.TokenOpts{Session: h.NewSess("")})
+	tr := e.w.Token(form, e.auth(client), h.TokenOpts{Session: e.w.Sess("")})
 	e.step("password")
 	if !tr.OK() {
 		e.logf("password client=%s -> %v (not asserted)", client, tr.Err)
